@@ -1368,4 +1368,103 @@ theorem step_connectHold_holds (k : Nat) (p cid : Str) (s : Server) (conn : Nat)
         rw [hA] at key
         exact (HoldsAt.of_surv (s' := _) key ((Surv.refl k _).upd rfl) rfl).holds
 
+/-! ### a parked handler runs on -/
+
+theorem connectRelease_holds (k : Nat) (p cid : Str) (s : Server) (q : Pending) (i : Nat) (hw : WF s)
+    (hobj : q.obj < s.objs.length) (hid : (getObj s q.obj).id = q.k.id)
+    (hni : q.stage = 1 → q.obj ≠ i) (h : HoldsAt s cid k p i)
+    (hne : ¬ (q.stage = 1 ∧ q.refuse = none ∧ EndsTakeover s cid q.k)) :
+    ∃ i', HoldsAt (connectRelease s q).1 cid k p i' := by
+  unfold connectRelease
+  by_cases h1 : (q.stage == 1) = true
+  · rw [if_pos h1]
+    have hst : q.stage = 1 := by simpa using h1
+    cases hr : q.refuse with
+    | some code =>
+      dsimp only
+      exact ⟨i, h.of_surv (stopClient_sv k s q.obj) (stopClient_quiet s q.obj).clients⟩
+    | none =>
+      dsimp only
+      exact ⟨_, admitClient_holds k p cid s q.obj q.conn q.k i hw hobj hid (hni hst) h
+        (fun x => hne ⟨hst, hr, x⟩)⟩
+  · rw [if_neg h1]
+    by_cases hs : (getObj s q.obj).stopped = true
+    · rw [if_pos hs]
+      exact ⟨i, h.of_surv ((Surv.refl k s).upd rfl) rfl⟩
+    · rw [if_neg hs]
+      split
+      rename_i s2 o2 h2
+      have q2 := admitConnack_quiet s q.obj q.conn q.present
+      have w2 := admitConnack_wf s q.obj q.conn q.present hw
+      have r2 := admitConnack_keep k s q.obj q.conn q.present i p h.2
+      rw [h2] at q2 w2 r2
+      split
+      rename_i s3 o3 h3
+      have q3 := admitC_quiet s2 q.obj q.k q.present
+      have r3 := admitC_keep k s2 q.obj q.k q.present (w2.allWF q.obj) i p r2
+      rw [h3] at q3 r3
+      exact ⟨i, by rw [q3.clients, q2.clients]; exact h.1, r3⟩
+
+theorem step_release_holds (k : Nat) (p cid : Str) (s : Server) (conn : Nat) (hw : WF s) (hsync : SyncInv s)
+    (h : Holds s cid k p) (hne : ¬ Ends s cid k (.release conn)) : Holds (step s (.release conn)).1 cid k p := by
+  obtain ⟨i, h⟩ := h
+  have h : HoldsAt s cid k p i := h
+  have hidi := h.id hw
+  have hne : ¬ EndsRelease s cid k conn := hne
+  unfold EndsRelease at hne
+  rw [step]
+  split
+  · rename_i q hq
+    rw [hq] at hne
+    have hmem : q ∈ s.pending := List.mem_of_find?_eq_some hq
+    have hv := hw.pending_valid q hmem
+    have wF : WF { s with pending := s.pending.filter (·.conn != conn) } := hw.filterPending _
+    have hF : HoldsAt { s with pending := s.pending.filter (·.conn != conn) } cid k p i :=
+      h.of_surv ((Surv.refl k s).upd rfl) rfl
+    obtain ⟨i', h'⟩ := connectRelease_holds k p cid _ q i wF hv.1 hv.2
+      (fun hst e => (hsync.st1 q hmem hst).1 cid (e ▸ h.1)) hF
+      (fun x => hne (Or.inl ⟨x.1, x.2.1, EndsTakeover_congr (s := s) rfl (fun _ _ => rfl) x.2.2⟩))
+    have w' := (connectRelease_wf _ q wF hv.1 hv.2).1
+    split
+    rename_i s1 o hcr
+    rw [hcr] at h' w'
+    have hne2 : (getObj s1 q.obj).isOpen = true → ¬ EndsRecv s1 cid k conn .pingreq false := by
+      intro hop x
+      apply hne
+      right
+      rw [hcr]
+      exact ⟨hop, x⟩
+    split
+    · rename_i hop
+      split
+      rename_i s2 o2 hr
+      have := recvOn_holds k p cid s1 conn .pingreq false i' w' h' (hne2 hop)
+      rw [hr] at this
+      exact this.holds
+    · exact h'.holds
+  · rename_i hq
+    rw [hq] at hne
+    unfold EndsParked at hne
+    split
+    · exact h.holds
+    · rename_i j hc
+      rw [hc] at hne
+      split
+      · rename_i hpk
+        have hP : HoldsAt { s with parked := s.parked.filter (· != j) } cid k p i :=
+          h.of_surv ((Surv.refl k s).upd rfl) rfl
+        exact (detachB_holds k p cid _ j i hP hidi (fun hid =>
+          Bool.eq_false_iff.mpr (fun e => hne ⟨hid, Or.inl hpk, e⟩))).holds
+      · split
+        · rename_i hpe
+          have hP : HoldsAt { s with parkedEarly := s.parkedEarly.filter (· != j) } cid k p i :=
+            h.of_surv ((Surv.refl k s).upd rfl) rfl
+          have := detach_holds k p cid _ j true i hP hidi (fun hid =>
+            Bool.eq_false_iff.mpr (fun e => hne ⟨hid, Or.inr hpe, e⟩))
+          split
+          rename_i s2 o hd
+          rw [hd] at this
+          exact this.holds
+        · exact h.holds
+
 end Mochi.Broker
